@@ -39,6 +39,7 @@ type c16Case struct {
 	NoDatabase bool   `json:"nodatabase"`
 	DecoyFood  bool   `json:"decoyfood"` // a food.yaml exists in the working directory
 	EqualsForm bool   `json:"equalsform"`
+	CfgFifo    bool   `json:"cfgfifo,omitempty"`  // the configuration file is a named pipe
 	CfgSymlink bool   `json:"cfgsymlink"`         // the configuration file is a symbolic link to the real file
 	CfgPad     int    `json:"cfgpad"`             // bytes of comment lines before the first section of the configuration file
 	NoDBFalse  bool   `json:"nodbfalse"`          // --no-database=false is given: must behave as if the switch were absent
@@ -220,7 +221,14 @@ func checkC16(c c16Case, ctx *vCtx) *vFailure {
 		cfgPath = filepath.Join(home, ".hranoprovod", "config")
 	}
 	if c.Channel != "none" && !c.CfgMissing {
-		if c.CfgSymlink {
+		if c.CfgFifo && (c.Channel == "flag" || c.Channel == "env") {
+			// the configuration file is a named pipe (what `--config <(...)` hands to a program): its size is 0, its content
+			// is whatever is written to it while the program reads
+			if err := syscall.Mkfifo(cfgPath, 0o644); err != nil {
+				vFault("mkfifo: %v", err)
+			}
+			ctx.Label("config-is-fifo")
+		} else if c.CfgSymlink {
 			real := filepath.Join(root, "dotfiles-config")
 			write(real, cfg.String())
 			if err := os.Symlink(real, cfgPath); err != nil {
@@ -290,6 +298,34 @@ func checkC16(c c16Case, ctx *vCtx) *vFailure {
 		all := append(append([]string{}, global...), args...)
 		ctx.Run(1)
 		if !useBin {
+			if c.CfgFifo && (c.Channel == "flag" || c.Channel == "env") && !c.CfgMissing {
+				wdone := make(chan struct{})
+				go func() {
+					defer close(wdone)
+					f, err := os.OpenFile(cfgPath, os.O_WRONLY, 0)
+					if err != nil {
+						return
+					}
+					_, _ = f.WriteString(cfg.String())
+					f.Close()
+				}()
+				defer func() {
+					// unblock the writer if the program never opened the pipe
+					if f, err := os.OpenFile(cfgPath, os.O_RDONLY|syscall.O_NONBLOCK, 0); err == nil {
+						f.Close()
+					}
+					<-wdone
+				}()
+			}
+			if c.CfgFifo && (c.Channel == "flag" || c.Channel == "env") && !c.CfgMissing {
+				// through the real binary: a process that runs one invocation (in process, the descriptor the previous
+				// invocation left open on the pipe would swallow what is written for the next one)
+				b := vRunBin(vInvocation{Args: all, Env: env, Cwd: cwd}, 30*time.Second)
+				if b.Exit == -999 {
+					vHang("the real binary did not terminate within 30 s with its configuration file given as a named pipe")
+				}
+				return c16Run{b.Stdout, strings.TrimSpace(b.Stderr), b.Failed}
+			}
 			r := vRunApp(vInvocation{Args: all, Env: env, Cwd: cwd})
 			if r.Panic != "" {
 				return c16Run{r.Stdout, "panic: " + r.Panic, true}
@@ -529,6 +565,7 @@ func genC16(t *rapid.T) c16Case {
 		DecoyFood:  rapid.Bool().Draw(t, "decoy"),
 		EqualsForm: rapid.Bool().Draw(t, "equals"),
 		CfgSymlink: rapid.IntRange(0, 3).Draw(t, "symlink") == 0,
+		CfgFifo:    rapid.IntRange(0, 7).Draw(t, "cfgfifo") == 0,
 		NoDBFalse:  rapid.IntRange(0, 5).Draw(t, "nodbfalse") == 0,
 		Dollar:     rapid.IntRange(0, 3).Draw(t, "dollar") == 0,
 	}
@@ -617,6 +654,7 @@ func c16EnumSpace() []c16Case {
 	}
 	for _, ch := range channels {
 		out = append(out, c16Case{Channel: ch, DecoyFood: true, CfgSymlink: true, Book: c16Src{Cfg: 3}, Fmt: c16Src{Cfg: 2}})
+		out = append(out, c16Case{Channel: ch, DecoyFood: true, CfgFifo: true, Book: c16Src{Cfg: 3}, Log: c16Src{Cfg: 2}, Fmt: c16Src{Cfg: 2}, Depth: c16Src{Cfg: 2}, Today: c16Src{Cfg: 1}})
 		for _, pad := range []int{4000, 4200, 9000, 70000} {
 			out = append(out, c16Case{Channel: ch, DecoyFood: true, CfgPad: pad, Book: c16Src{Cfg: 3}, Log: c16Src{Cfg: 2}, Fmt: c16Src{Cfg: 2}, Depth: c16Src{Cfg: 2}, Today: c16Src{Cfg: 1}})
 		}
